@@ -23,6 +23,14 @@ theorem rd_all (d : List Byte) : rd d 0 d.length = d := by simp [rd]
 
 theorem rd_zero (m : List Byte) (off : Nat) : rd m off 0 = [] := by simp [rd]
 
+/-- the `_capacity` the translated method leaves behind (0 when it faults): the capacity wish under which the model method is
+    compared with it – the model allocates `max needed wish`, so with today's source (which allocates exactly what is needed) this
+    is the model's wish-0 behaviour, and a source that allocates more (another growth policy) is still the model method -/
+def capOf (r : Option (C.Obj × C.Heap)) : Nat :=
+  match r with
+  | some r => r.1.capacity
+  | none => 0
+
 /-- conditions are decided by `omega` from the case hypotheses, whatever way the source spells them -/
 theorem dec_true {p : Prop} [Decidable p] (h : p) : decide p = true := by simp [h]
 theorem dec_false {p : Prop} [Decidable p] (h : ¬ p) : decide p = false := by simp [h]
@@ -30,7 +38,7 @@ theorem dec_false {p : Prop} [Decidable p] (h : ¬ p) : decide p = false := by s
 /-- unfold both machines and compute; side conditions of the checked loads/stores by `omega` -/
 macro "tr_simp1" "[" ts:Lean.Parser.Tactic.simpLemma,* "]" : tactic => `(tactic|
   simp (disch := ((try simp only [rd_length, wr_length, fresh_length, List.length_cons, List.length_nil, List.length_map, bytesOf]); omega))
-    [objOf, heapOf, blocksOf, attOf, out, outB, bind, pure, branch, val, C.led, ngt, nlt, nge, nle, neq, nadd, nsub, pdiff, padd, psub,
+    [tr_gen, capOf, Nat.max_self, Nat.max_eq_left, Nat.max_eq_right, objOf, heapOf, blocksOf, attOf, out, outB, bind, pure, branch, val, C.led, ngt, nlt, nge, nle, neq, nadd, nsub, pdiff, padd, psub,
      ple, plt, pge, pgt, peq, prel, tern, band, bor, bnot, truthy, nullPtr, cellPtr,
      newArr, memcopy, memmove, load, store, store0, deleteArr, getBlk, setBlk, disjoint, allocId, checkLive, deleteId, newBlock,
      Store.load, Store.write, Store.release, liftO, newCap, ptrSub, Buf.termIfOwning, Buf.home, Buf.owning, Buf.default, cfault, fault,
